@@ -218,3 +218,39 @@ Proof. vm_compute. reflexivity. Qed.
 Definition header_refused (buffered : Z) : bool := negotiation_header_cap <? buffered.
 Theorem header_cap_4096 n : header_refused n = true <-> 4096 < n.
 Proof. unfold header_refused, negotiation_header_cap. rewrite Z.ltb_lt. reflexivity. Qed.
+
+(* ------------------------------------------------------------------ *)
+(* The verdict on a header block, read from Negotiation.dataReceived by symbolic execution (whatever the arrangement of the
+   tests in the source), equals the specification: refuse when the terminator lies beyond the cap, or is absent although
+   cap + slack bytes are buffered (a terminator that starts within the cap can then no longer be completed); wait when it is
+   absent; otherwise split there.  The verdict is a function of where the terminator is and of how many bytes are buffered:
+   nothing else -- not the packet boundaries, not what follows the block -- enters. *)
+Definition header_spec (eoh buflen : Z) : Z :=
+  if (negotiation_header_cap <? eoh) || ((eoh =? -1) && (negotiation_header_cap + negotiation_noterm_slack <=? buflen)) then 0
+  else if eoh =? -1 then 1 else 2.
+
+Ltac zcases :=
+  repeat (match goal with
+          | |- context [Z.ltb ?a ?b] => destruct (Z.ltb_spec a b)
+          | |- context [Z.leb ?a ?b] => destruct (Z.leb_spec a b)
+          | |- context [Z.eqb ?a ?b] => destruct (Z.eqb_spec a b)
+          end; cbn [orb andb negb]).
+
+Theorem header_verdict_spec eoh buflen : header_verdict eoh buflen = header_spec eoh buflen.
+Proof.
+  unfold header_verdict, header_spec, negotiation_header_cap, negotiation_noterm_slack.
+  zcases; try reflexivity; lia.
+Qed.
+
+(* consequences used by the splitter model (lib/NegSplit.v): *)
+Corollary header_refused_beyond_cap eoh buflen : 4096 < eoh -> header_verdict eoh buflen = 0.
+Proof. intros H. rewrite header_verdict_spec. unfold header_spec, negotiation_header_cap, negotiation_noterm_slack. zcases; try reflexivity; lia. Qed.
+
+Corollary header_waits_below_limit buflen : buflen < 4100 -> header_verdict (-1) buflen = 1.
+Proof. intros H. rewrite header_verdict_spec. unfold header_spec, negotiation_header_cap, negotiation_noterm_slack. zcases; try reflexivity; lia. Qed.
+
+Corollary header_refused_without_terminator buflen : 4100 <= buflen -> header_verdict (-1) buflen = 0.
+Proof. intros H. rewrite header_verdict_spec. unfold header_spec, negotiation_header_cap, negotiation_noterm_slack. zcases; try reflexivity; lia. Qed.
+
+Corollary header_split_within_cap eoh buflen : 0 <= eoh <= 4096 -> header_verdict eoh buflen = 2.
+Proof. intros H. rewrite header_verdict_spec. unfold header_spec, negotiation_header_cap, negotiation_noterm_slack. zcases; try reflexivity; lia. Qed.
